@@ -67,6 +67,12 @@ def nm(q, a, b):
 
 # ------------------------------------------------------------------------------------------------
 
+def has_long_edge_candidate(el):
+    """some a->b, b->c, a->c (any edge order): the network simplex draws a->c across two bands"""
+    es = set(el)
+    return any((a, b) in es and (b, c) in es and (a, c) in es for a in range(6) for b in range(6) for c in range(6) if len({a, b, c}) == 3)
+
+
 def C01(tier):
     q = tier == "quick"
     N, M = nm(q, (3, 3), (4, 4))
@@ -96,10 +102,20 @@ def C02(tier):
     obs = [layout_ob("layout-same-graph", "Harness_E_C02", sh, dims, consts={"P4": 4, "P5": 2},
                      bounds="all canonical edge lists N<=%d M<=%d x cycle breakers%s x size options {none, fixed, per-node all, fixed+per-node some} x "
                             "virtual-node output; symbolic sizes and spacings" % (N, M, "" if q else " x layerers"))]
+    obs.append(unreverse_ob(tier))
     if not q:
         obs.append(layout_ob("layout-same-graph-lp", "Harness_E_C02", shapes(3, 3), {"P1": [0, 1], "SZ": [3], "VIRT": [0, 1], "P4": [1, 5]},
                              consts={"P2": 1, "P5": 3}, bounds="N<=3 M<=3 x longest-path layering x {VAlign,PackRight} x ortho"))
     return dict(obligations=obs)
+
+
+def unreverse_ob(tier):
+    q = tier == "quick"
+    grid = [(2, 2), (2, 3), (2, 4), (3, 3)] if q else [(2, 2), (2, 3), (2, 4), (2, 5), (3, 3), (3, 4), (3, 5), (4, 4)]
+    cubes = [c for (n, m) in grid for c in phase1_cubes(n, m)]
+    return dict(name="unreverse-kernel", pkg="internal/processor/postprocessor", func="Harness_Unreverse", consts={}, cubes=cubes,
+                bounds="post-processor kernel: all canonical connected loop-free edge lists with (N,M) in %s; symbolic: which edges are stored reversed "
+                       "(2^M subsets chosen by the solver)" % grid, enctimeout=200)
 
 
 def C03(tier):
@@ -122,6 +138,9 @@ def C04(tier):
     obs = [layout_ob("layout-no-overlap", "Harness_E_C04", sh, {"P4": [4, 1, 5], "P1": [0, 1], "P2": [0, 1]},
                      consts={"P5": 0, "SZ": 2},
                      bounds="all canonical edge lists N<=%d M<=%d x {SinkColoring,VAlign,PackRight} x {greedy,dfs} x {NS,LP}; %s" % (N, M, SYMB)),
+           layout_ob("layout-no-overlap-sinkcoloring-5", "Harness_E_C04", edge_lists(5, 4, selfloops=False, connected=True)[::nm(q, 4, 1)], {"P1": [0]},
+                     consts={"P2": 0, "P4": 4, "P5": 0, "SZ": 4, "LSFIX": 1},
+                     bounds="%s canonical connected trees/forests with N=5 M=4 (every edge order) x SinkColoring (default pipeline); symbolic widths, NodeSpacing" % nm(q, "every 4th of the", "all")),
            layout_ob("layout-no-overlap-nspos", "Harness_E_C04", shapes(3, 2) if q else shapes(3, 3), {"P1": [0, 1]},
                      consts={"P2": 0, "P4": 3, "P5": 0, "SZ": 2, "INTSZ": 1, "MAXSZ": 2}, loop=192, enctimeout=nm(q, 100, 400),
                      bounds="canonical edge lists x NetworkSimplex positioner; symbolic integer W,H,spacings in 0..2"),
@@ -138,6 +157,7 @@ def C05(tier):
     obs = [layout_ob("layout-edge-anchors", "Harness_E_C05", sh, {"P5": [1, 2, 3], "P4": [4, 1, 5], "P1": [0, 1]},
                      consts={"P2": 0, "SZ": 2},
                      bounds="all canonical edge lists N<=%d M<=%d x {straight,polyline,ortho} x {SinkColoring,VAlign,PackRight} x {greedy,dfs}; %s (LayerSpacing>=1)" % (N, M, SYMB))]
+    obs.append(unreverse_ob(tier))
     if not q:
         obs.append(layout_ob("layout-edge-anchors-lp", "Harness_E_C05", shapes(3, 3), {"P5": [1, 2, 3], "P1": [0, 1]},
                              consts={"P2": 1, "P4": 4, "SZ": 2}, bounds="N<=3 M<=3 x longest-path layering"))
@@ -151,13 +171,17 @@ def C06(tier):
     obs = [layout_ob("layout-route-geometry", "Harness_E_C06", sh, {"P5": [1, 2, 3], "P4": [4, 1, 5], "VIRT": [0, 1]},
                      consts={"P1": 1, "P2": 0, "SZ": 2, "KNOWN_ORTHO": 0},
                      bounds="all canonical edge lists N<=%d M<=%d x {straight,polyline,ortho} x {SinkColoring,VAlign,PackRight} x virtual-node output; %s" % (N, M, SYMB))]
+    multi = [s for s in (shapes(5, 4) if q else shapes(6, 5, selfloops=False)) if not is_connected(s, 1 + max(max(e) for e in s)) and has_long_edge_candidate(s)]
+    obs.append(layout_ob("layout-route-geometry-components", "Harness_E_C06", multi, {"P4": [4, 1]},
+                         consts={"P1": 1, "P2": 0, "P5": 2, "SZ": 2, "VIRT": 1, "KNOWN_ORTHO": 0},
+                         bounds="edge lists with >= 2 components of which one contains a transitive triangle (long edge) N<=%d M<=%d, polyline, helper nodes in the output" % nm(q, (5, 4), (6, 5))))
     return dict(obligations=obs)
 
 
 def C07(tier):
     q = tier == "quick"
     sh = shapes(4, 2) + [s for s in shapes(3, 3) if s not in shapes(4, 2)] if q else shapes(4, 4)
-    obs = [layout_ob("layout-deterministic", "Harness_E_C07", sh, {"P1": [0, 1], "P2": [0, 1], "P4": [4, 1]},
+    obs = [layout_ob("layout-deterministic", "Harness_E_C07", sh, {"P1": [0, 1], "P2": [0, 1], "P4": [4, 1], "VIRT": [0, 1]},
                      consts={"P5": 2, "SZ": 2},
                      bounds="canonical edge lists (%s) x {greedy,dfs} x {NS,LP} x {SinkColoring,VAlign}, polyline; two calls, every `range` over a map "
                             "visits its keys in an independent solver-chosen order in each call; input slices/maps compared before/after" % nm(q, "N<=4 M<=2 and N<=3 M<=3", "N<=4 M<=4"),
@@ -171,11 +195,12 @@ def C07(tier):
 
 def C08(tier):
     q = tier == "quick"
-    sh = [[(0, 1)], [(0, 1), (0, 2)], [(0, 1), (1, 2), (0, 2)], [(0, 1), (1, 0)], [(0, 0), (0, 1)]] if q else shapes(3, 3)
+    sh = [[(0, 1)], [(0, 1), (0, 2)], [(0, 1), (1, 2), (0, 2)], [(0, 1), (1, 0)], [(0, 0), (0, 1)], [(0, 1), (1, 2), (2, 0)]] if q else shapes(3, 3) + [
+        [(0, 1), (1, 2), (2, 3), (3, 0)], [(0, 1), (1, 2), (2, 0), (2, 3)], [(0, 1), (1, 2), (2, 3), (3, 1)]]
     obs = [layout_ob("layout-rename", "Harness_E_C08", sh, {"P4": [4, 3]},
                      consts={"P1": 0, "P2": 0, "P5": 2, "SZ": 5, "INTSZ": 1, "NSFIX": 10, "LSFIX": 20},
                      bounds="%s x {SinkColoring, NetworkSimplex positioner}; symbolic: an injective renaming chosen by the solver from the alphabet "
-                            "{a,V1,V2,V3,NE0..NE3,'',non-ASCII,n0,n1}; concrete heterogeneous sizes" % nm(q, "5 shapes (edge, fork, long edge, 2-cycle, self-loop)", "all canonical edge lists N<=3 M<=3"),
+                            "{a,V1,V2,V3,NE0..NE3,'',non-ASCII,n0,n1}; concrete heterogeneous sizes" % nm(q, "6 shapes (edge, fork, long edge, 2-cycle, self-loop, 3-cycle)", "all canonical edge lists N<=3 M<=3"),
                      enctimeout=240, qtimeout=120, loop=192)]
     return dict(obligations=obs)
 
@@ -208,10 +233,10 @@ def C10(tier):
 
 def C11(tier):
     q = tier == "quick"
-    sh = shapes(4, 3) + shapes(3, 4) if q else shapes(5, 5, selfloops=False) + shapes(4, 4)
+    sh = shapes(5, 3) + shapes(3, 4) if q else shapes(5, 5, selfloops=False) + shapes(4, 4) + shapes(6, 4, selfloops=False)
     obs = [layout_ob("layout-lp-min-layers", "Harness_E_C11", sh, {"P1": [0, 1]},
                      consts={"P2": 1, "P4": 1, "P5": 0, "SZ": 0, "LSFIX": 1, "NSFIX": 1},
-                     bounds="canonical edge lists (%s) x {greedy,dfs} x longest-path layering" % nm(q, "N<=4 M<=3 and N<=3 M<=4", "N<=5 M<=5 loop-free and N<=4 M<=4 with self-loops"))]
+                     bounds="canonical edge lists (%s) x {greedy,dfs} x longest-path layering" % nm(q, "N<=5 M<=3 and N<=3 M<=4", "N<=5 M<=5 loop-free, N<=4 M<=4 with self-loops, N<=6 M<=4 loop-free"))]
     return dict(obligations=obs)
 
 
@@ -266,9 +291,9 @@ def C16(tier):
     q = tier == "quick"
     N, M = nm(q, (4, 3), (5, 4))
     sh = shapes(N, M, connected=True) + (shapes(3, 4, connected=True) if q else shapes(4, 5, connected=True, selfloops=False))
-    obs = [layout_ob("layout-valign-packright", "Harness_E_C16", sh, {"P4": [1, 5], "P1": [0, 1]},
+    obs = [layout_ob("layout-valign-packright", "Harness_E_C16", sh, {"P4": [1, 5], "P1": [0, 1], "P3": [1, 0]},
                      consts={"P2": 0, "P5": 2, "SZ": 2, "VIRT": 1},
-                     bounds="all canonical connected edge lists (%s) x {VAlign,PackRight} x {greedy,dfs}, helper nodes in the output; %s (LayerSpacing>=1)" % (
+                     bounds="all canonical connected edge lists (%s) x {VAlign,PackRight} x {greedy,dfs} x {weighted-median ordering, no ordering}, helper nodes in the output; %s (LayerSpacing>=1)" % (
                          nm(q, "N<=4 M<=3, N<=3 M<=4", "N<=5 M<=4, N<=4 M<=5"), SYMB))]
     return dict(obligations=obs)
 
@@ -293,6 +318,8 @@ def C18(tier):
     small = [[(0, 1), (1, 2), (0, 2)], [(0, 0), (0, 1)]]
     obs = [layout_ob("monitor-does-not-change-layout", "Harness_E_C18a", sh, {"P4": [4, 1], "P2": [0, 1]},
                      consts={"P1": 0, "P5": 2, "SZ": 2}, bounds="canonical edge lists x {SinkColoring,VAlign} x {NS,LP}: layout with and without a recording monitor; " + SYMB),
+           layout_ob("monitor-does-not-change-layout-bk", "Harness_E_C18a", shapes(3, 3) if q else shapes(4, 4, selfloops=False, connected=True), {"BK": [-1, 0, 3], "P5": [1, 3]},
+                     consts={"P1": 0, "P2": 0, "P4": 2, "SZ": 5, "NSFIX": 10, "LSFIX": 20}, loop=96, bounds="canonical edge lists x Brandes-Koepf (balanced / forced) x {straight,ortho}, concrete heterogeneous sizes"),
            dict(name="monitor-histories", pkg=".", func="Harness_E_C18b", consts=dict(OPT_DEFAULT, K=K),
                 cubes=[dict(shape_cube(s), **h) for s in small for h in hist],
                 bounds="all histories of %d calls, each one of {empty graph (panics), self-looped node, one edge, a 3-node graph} x {own monitor, none}; "
